@@ -339,6 +339,10 @@ func runLabProp(c *drv.Ctx, lp *LabProp) error {
 		}
 		if hangs > 0 {
 			c.Inconclusive = fmt.Sprintf("%d requests hit the watchdog (reported as inconclusive by policy)", hangs)
+		} else if genFailed+pkgsFailed > 0 {
+			// a parser that cannot be generated or compiled is C08's violation; this property
+			// could not be observed on it, which must not read as "held"
+			c.Inconclusive = fmt.Sprintf("%d generated parsers failed to generate and %d failed to compile: the property could not be observed on them (C08 decides validity of generated code)", genFailed, pkgsFailed)
 		}
 	}
 	return nil
